@@ -27,7 +27,12 @@ func ellipsis(str []byte, length int) []byte {
 		if len(str) < 3 || length < 3 {
 			return []byte("...")
 		}
-		return append(bytes.TrimSpace(str[0:length-3]), '.', '.', '.')
+		// a new slice: appending to a sub-slice of the input would overwrite the caller's bytes
+		head := bytes.TrimSpace(str[0 : length-3])
+		out := make([]byte, 0, len(head)+3)
+		out = append(out, head...)
+
+		return append(out, '.', '.', '.')
 	}
 
 	return str
